@@ -98,6 +98,20 @@ def tasks(tier):
     cfg = dict(M=3, alphabet=["x:T"], handler="call", handler_menu=["BAD"], max_unknown=None)
     for e in ["Retry.call", "AsyncRetry.call"]:
         out.append({"family": "protocol-bad", "cfg": cfg, "entry": e, "bound": 0})
+    # an abort predicate is configured (it never fires) and the delays are long
+    for hd, e in itertools.product([None, "call"], SYNC + ASYNC):
+        cfg = dict(M=3, alphabet=["x:T", "ok", "r:T"], handler=hd, handler_free=True, abort=True,
+                   max_unknown=None, strat_menu=[9, 20, 41], strat_free=True, before_sleep="call",
+                   sleeper="call")
+        out.append({"family": "protocol-abort-configured", "cfg": cfg, "entry": e, "bound": 0})
+    # callbacks that are stateful callable objects, through every way of building the policy
+    for hd, e in itertools.product(["policy", "call"], ["RetryCfg.call", "AsyncRetryCfg.execute", "RetryPolicyCfg.execute",
+                                                        "AsyncRetryPolicyCfg.call", "Retry.call", "RetryPolicy.execute", "deco",
+                                                        "AsyncRetryPolicySet.call"]):
+        cfg = dict(M=3, alphabet=["x:T", "ok", "r:T"], handler=hd if e != "deco" else "policy", handler_free=True,
+                   max_unknown=None, before_sleep=hd if e != "deco" else "policy", sleeper=hd if e != "deco" else "policy",
+                   callable_kind="stateful")
+        out.append({"family": "protocol-stateful-callables", "cfg": cfg, "entry": e, "bound": 0})
     # delays that are not whole microseconds: DEFER reports exactly the computed delay
     for e in SYNC + ASYNC:
         cfg = dict(M=3, alphabet=["x:T", "ok", "r:T"], handler="call", handler_free=True,
@@ -124,6 +138,9 @@ def monitor(w, cfg):
     for r in w.trace:
         if r[0] == "overlap":
             v.append(("c16.sleep-sequence", r[1]))
+        elif r[0] == "copied_callback":
+            v.append(("c16.callback-identity", f"the library called a copy of the caller's "
+                                               f"callback object ({r[1]}), not the object itself"))
     for call in split_calls(w.trace):
         end = call.end
         atts = list(attempts(cfg, call))
